@@ -44,6 +44,8 @@ def finish(cfg):
     cfg.setdefault("maxdup", 0)
     cfg.setdefault("engine", "engine")
     cfg.setdefault("gate_usage", False)
+    cfg.setdefault("usage_faults", False)      # the parked usage probe of a release may also FAIL (needs gate_usage)
+    assert cfg["gate_usage"] or not cfg["usage_faults"]
     for k, l in cfg["locs"].items():
         if not l.get("name"):
             l["name"] = k
@@ -148,6 +150,53 @@ def CONFIGS():
                  "c": job(2, 1, 1, 0, [("D1", 1)], tag=2)},
         "gate_usage": True,
     })
+    # ROLLBACK reaching a job that still HOLDS its resources (FIREABLE -> ROLLBACK, RUNNING -> ROLLBACK, no FAILED/RECOVERY
+    # in between: engine "contract"), on a hardware-accounted location with non-zero requirements; a saturates L1, so b
+    # waits for the release that the ROLLBACK must perform; duplicated ROLLBACKs; re-schedule of the rolled-back job
+    C["rbactive"] = finish({
+        "locs": {"L1": hwloc("D1", 2, 2, 2, 2)},
+        "deps": {"D1": ["L1"]},
+        "jobs": {"a": job(2, 1, 1, 1, [("D1", 1)], ur=1, tag=0),
+                 "b": job(1, 1, 1, 0, [("D1", 1)], tag=1)},
+        "maxgen": 2, "maxdup": 1, "engine": "contract",
+    })
+    # the same class on a stacked hardware deployment (release on both levels + list removal on both levels) with the
+    # measurement gated: other notifications and requests arrive while the rolling-back notifier is measuring
+    C["rbstacked"] = finish({
+        "locs": {"C1": hwloc("DC", 2, 2, 2, 2, wraps="H", bind={"r": "none", "d": "d"}),
+                 "H": hwloc("DH", 2, 2, 4, 2)},
+        "deps": {"DC": ["C1"], "DH": ["H"]},
+        "jobs": {"a": job(1, 1, 1, 1, [("DC", 1)], ud=1, tag=0),
+                 "b": job(2, 1, 0, 1, [("DH", 1), ("DC", 1)], tag=1)},
+        "maxgen": 2, "engine": "contract", "gate_usage": True,
+    })
+    # faults of the usage probe at release time: the gated measurement of _free_resources either completes (UsageDone) or
+    # FAILS (UsageFail: the reservation is released with zero measured usage); a saturates the cores of L1, c needs them
+    C["probefail"] = finish({
+        "locs": {"L1": hwloc("D1", 2, 2, 3, 2)},
+        "deps": {"D1": ["L1"]},
+        "jobs": {"a": job(2, 1, 1, 1, [("D1", 1)], ur=1, ud=1, tag=0),
+                 "c": job(2, 1, 2, 0, [("D1", 1)], ur=1, tag=2)},
+        "gate_usage": True, "usage_faults": True, "maxdup": 1,
+    })
+    # three jobs (two fit at once): failed and successful probes of different jobs in every order (thorough tier)
+    C["probefail3"] = finish({
+        "locs": {"L1": hwloc("D1", 2, 2, 3, 2)},
+        "deps": {"D1": ["L1"]},
+        "jobs": {"a": job(2, 1, 1, 1, [("D1", 1)], ur=1, ud=1, tag=0),
+                 "b": job(1, 1, 1, 0, [("D1", 1)], ur=1, tag=1),
+                 "c": job(2, 1, 2, 0, [("D1", 1)], tag=2)},
+        "gate_usage": True, "usage_faults": True,
+    })
+    # probe faults on a stacked hardware deployment (the probe of every level fails), contract engine
+    C["probestacked"] = finish({
+        "locs": {"C1": hwloc("DC", 2, 2, 2, 2, wraps="H", bind={"r": "none", "d": "d"}),
+                 "H": hwloc("DH", 2, 2, 4, 2)},
+        "deps": {"DC": ["C1"], "DH": ["H"]},
+        "jobs": {"a": job(1, 1, 1, 1, [("DC", 1)], ud=1, tag=0),
+                 "b": job(2, 1, 0, 1, [("DH", 1), ("DC", 1)], ud=1, tag=1)},
+        "engine": "contract", "gate_usage": True, "usage_faults": True,
+    })
     # larger instances (simulation only)
     C["big"] = finish({
         "locs": {"L1": hwloc("D1", 3, 4, 4, 3), "L2": hwloc("D1", 2, 2, 2, 4), "L3": slotloc("D2", 2),
@@ -225,7 +274,8 @@ def render_cfg(cfg, *, next_="Next", spec=None, invariants=(), properties=(), vi
     out = ["CONSTANTS"]
     out += ["  %s <- c_%s" % (n, n) for n in CONST_NAMES]
     out += ["  MaxGen = %d" % cfg["maxgen"], "  MaxDup = %d" % cfg["maxdup"], '  Engine = "%s"' % cfg["engine"],
-            "  GateUsage = %s" % ("TRUE" if cfg.get("gate_usage") else "FALSE")]
+            "  GateUsage = %s" % ("TRUE" if cfg.get("gate_usage") else "FALSE"),
+            "  UsageFaults = %s" % ("TRUE" if cfg.get("usage_faults") else "FALSE")]
     if spec:
         out.append("SPECIFICATION %s" % spec)
     else:
@@ -295,6 +345,19 @@ def _registered_paths(cfg, loc_id, m):
     return ps
 
 
+def _quiet_probe_warnings():
+    """the injected probe failures make _free_resources log one WARNING each: keep them out of the check's output"""
+    import logging
+    lg = logging.getLogger("streamflow")
+    if not any(getattr(f, "_vh_probe", False) for f in lg.filters):
+        class _F(logging.Filter):
+            _vh_probe = True
+
+            def filter(self, record):
+                return "Impossible to retrieve the actual storage usage" not in record.getMessage()
+        lg.addFilter(_F())
+
+
 class Sut:
     """The real DefaultScheduler wired to fake connectors described by a configuration."""
 
@@ -310,11 +373,15 @@ class Sut:
 
         self.cfg = cfg
         self.Status = Status
+        if cfg.get("usage_faults"):
+            _quiet_probe_warnings()
         self.gates = Gates()
         self.gated = gated
         self.holder = None           # (job id, target index) of the task parked in get_available_locations
         self.usage_passed = {}       # job -> False while the usage measurement of its current release is to be gated
         self.usage_parked = {}       # job -> number of run() calls parked
+        self.usage_fail = {}         # job -> True: the usage probes of its current release fail (non-zero exit status)
+        self.probe_failures = 0      # number of probe commands answered with a failure
         self.max_usage_parked = 0    # max number of jobs whose measurements were parked at the same time
         self.errors = []             # exceptions raised by calls into the scheduler
         self.calls = []              # (kind, job, arg, asyncio task)
@@ -377,6 +444,11 @@ class Sut:
                     sut.max_usage_parked = max(sut.max_usage_parked, sum(1 for v in sut.usage_parked.values() if v > 0))
                     await sut.gates.wait("use:" + jid)
                     sut.usage_parked[jid] -= 1
+                if jid in cfg["jobs"] and sut.usage_fail.get(jid):
+                    # fault of the connector: the command ends with a non-zero status (remotepath._check_status raises
+                    # WorkflowExecutionException, which _free_resources is expected to survive)
+                    sut.probe_failures += 1
+                    return ("find: connection lost", 1) if capture_output else None
                 for leaf in leaves:
                     total += usage.get(leaf, 0) * 2 ** 20
                 return (str(total), 0) if capture_output else None
@@ -466,15 +538,17 @@ class Sut:
             t = asyncio.create_task(self.scheduler.schedule(self.jobs[j], self.bindings[j], self.reqs[j]))
             self.sched_tasks[(j, self.gen[j])] = t
             self.calls.append(("schedule", j, self.gen[j], t))
-        elif name == "UsageDone":
+        elif name in ("UsageDone", "UsageFail"):
             self.usage_passed[j] = True
+            self.usage_fail[j] = name == "UsageFail"
             n = 0
             while self.gates.open("use:" + j):
                 n += 1
             if n == 0:
-                self.errors.append(("no-parked-measurement", "UsageDone", None))
+                self.errors.append(("no-parked-measurement", name, None))
         elif name == "Notify":
             self.usage_passed[j] = False
+            self.usage_fail[j] = False
             t = asyncio.create_task(self.scheduler.notify_status(self.jobs[j].name, self.Status[s]))
             self.calls.append(("notify", j, s, t))
         elif name == "EvalDone":
@@ -726,8 +800,14 @@ async def _replay_on(sut, cfg, steps, prop, report):
     n = 0
     prefix = []
     diverged = False       # after a conformance difference the behaviour is still driven to its end, oracles only
+    classes = []           # input classes met by this behaviour so far (appended to the C11/C12 signatures)
     for a, exp_st in steps:
         before = sut.project()
+        if a["name"] == "Notify" and a["s"] == "ROLLBACK" and before["alloc"][a["j"]]["status"] in ("FIREABLE", "RUNNING") \
+                and "rollback-while-active" not in classes:
+            classes.append("rollback-while-active")        # ROLLBACK sent to a job that still holds its resources
+        if a["name"] == "UsageFail" and "usage-probe-failed" not in classes:
+            classes.append("usage-probe-failed")           # the usage probe of a release failed
         try:
             await sut.apply(a)
         except Exception as e:  # harness-level failure is not swallowed
@@ -751,6 +831,7 @@ async def _replay_on(sut, cfg, steps, prop, report):
             for sig, det in oracle_c11(cfg, got):
                 if sut.max_usage_parked >= 2:       # releases of several jobs were measuring at the same time
                     sig += ":overlapping-releases"
+                sig += "".join(":" + c for c in classes)
                 report(sig, dict(det, config=cfg["id"], actions=list(prefix)), "no job is fireable/running but resources stay reserved on %s" % det.get("location_name"))
             if a["name"] == "Notify" and before["holder"] is None and before["alloc"][a["j"]]["status"] == a["s"]:
                 for f in ("alloc", "res", "lj"):
@@ -759,6 +840,7 @@ async def _replay_on(sut, cfg, steps, prop, report):
                                "a repeated %s notification changed %s" % (a["s"], f))
         if prop == "C12":
             for sig, det in oracle_c12(cfg, got):
+                sig += "".join(":" + c for c in classes)
                 report(sig, dict(det, config=cfg["id"], actions=list(prefix)), "request of job %s waits although target %s has free capacity" % (det["job"], det["target"]))
         # conformance with the model state
         if exp_st is not None and not diverged:
@@ -867,13 +949,14 @@ def _cex_steps(trace):
 
 def run_property(ctx, prop):
     C = CONFIGS()
-    replayed = ctx.pick(["basic", "stacked", "replicas", "rollback", "retry", "cancel", "aliased", "overlap"],
-                        ["basic", "storage", "stacked", "replicas", "rollback", "retry", "cancel", "aliased", "overlap", "multi", "hostile"])
+    replayed = ctx.pick(["basic", "stacked", "replicas", "rollback", "retry", "cancel", "aliased", "overlap", "rbactive", "rbstacked", "probefail", "probestacked"],
+                        ["basic", "storage", "stacked", "replicas", "rollback", "retry", "cancel", "aliased", "overlap", "multi", "hostile",
+                         "rbactive", "rbstacked", "probefail", "probefail3", "probestacked"])
     mc_only = ctx.pick(["hostile"], [])
     invs = PROP_INVARIANTS[prop]
     props = ["DupIsNoop"] if prop == "C11" else []
     sims = ctx.pick([("big", 60, 40)], [("big", 600, 50)])
-    live = ctx.pick(["basic", "stacked"], ["basic", "storage", "stacked", "multi", "retry"]) if prop == "C12" else []
+    live = ctx.pick(["basic", "stacked", "probefail"], ["basic", "storage", "stacked", "multi", "retry", "probefail", "probestacked"]) if prop == "C12" else []
     # all TLC runs are independent: launch them concurrently (JVM start-up dominates on a busy machine)
     from concurrent.futures import ThreadPoolExecutor
     jobs = {}
@@ -929,8 +1012,17 @@ def run_property(ctx, prop):
             ctx.count("model_invariant_violated:%s:%s" % (name, ",".join(sorted(set(r.violated)))))
         trs = [x for x in r.printed_json() if isinstance(x, dict) and "a" in x and "f" in x]
         ctx.require(len(trs) >= r.generated - 1 and len(trs) > 50, "emission incomplete on %s: %d lines, %d transitions" % (name, len(trs), r.generated))
-        for an in ACTIONS + (["UsageDone"] if cfg.get("gate_usage") else []):
+        for an in ACTIONS + (["UsageDone"] if cfg.get("gate_usage") else []) + (["UsageFail"] if cfg.get("usage_faults") else []):
             ctx.require(any(t["a"]["name"] == an for t in trs), "vacuous model run on %s: action %s never taken" % (name, an))
+        # input classes (vacuity guards): ROLLBACK sent to a job that still holds its resources; failed usage probes
+        rb = sum(1 for t in trs if t["a"]["name"] == "Notify" and t["a"]["s"] == "ROLLBACK"
+                 and t["f"]["alloc"][t["a"]["j"]]["status"] in ("FIREABLE", "RUNNING"))
+        if cfg["engine"] == "contract" and cfg["maxgen"] > 1:
+            ctx.require(rb > 0, "vacuous model run on %s: no ROLLBACK reaches a fireable/running job" % name)
+        if rb:
+            ctx.count("rollback_while_active_in_model:%s" % name, rb)
+        if cfg.get("usage_faults"):
+            ctx.count("usage_probe_failures_in_model:%s" % name, sum(1 for t in trs if t["a"]["name"] == "UsageFail"))
         ctx.count("waits_in_model:%s" % name, sum(1 for t in trs if len(t["t"]["condq"]) > len(t["f"]["condq"])))
         ctx.count("wakeups_in_model:%s" % name, sum(1 for t in trs if t["f"]["condq"] and not t["t"]["condq"]))
         paths, taken, total = cover_paths(trs)
